@@ -56,7 +56,7 @@ func fixtureKeyEntries() []string {
 		keyFuture+"?read=admin&write=admin&expires=2099-01-01T00:00:00Z",
 		keyExpired+"?read=admin&write=admin&expires=1999-01-01T00:00:00Z",
 		keyShort+"?read=user&write=user",
-		"?read=admin&write=admin", // no key at all
+		"?read=admin&write=admin",  // no key at all
 		" ?read=admin&write=admin", // a blank is a key like any other; it is not the empty key
 		keyBadPerm+"?read=root&write=admin",
 		keyBadExp+"?read=admin&write=admin&expires=tomorrow",
